@@ -45,18 +45,14 @@ Example test_double_cancel :
 Proof. vm_compute. reflexivity. Qed.
 
 (* the context may become done at any moment (environment step), no panics, reducer writes nothing
-   (with a reducer write the race of witness W3 appears: see test_ctx_write_race below): no stuck state *)
+   (see also test_ctx_write_race_not_stuck below): no stuck state *)
 Definition cf_t5 : cfg := mkcfg 2 [0; 1] None (fun _ => [AWrite 1]) None [] false.
 Example test_ctx_any_time : explore_ok cf_t5 true (fun _ => true) fuel = true.
 Proof. vm_compute. reflexivity. Qed.
 
-(* ... and with a reducer write the exploration does find the stuck state (finish racing with the reducer's send) *)
+(* ... with a reducer write there is no stuck state either any more (the send-on-closed panic goes to the buffer) *)
 Definition cf_t5w : cfg := mkcfg 2 [0; 1] None (fun _ => [AWrite 1]) None [RWrite 7] false.
-Example test_ctx_write_race :
-  match bad (explore cf_t5w true (fun _ => true) fuel) with
-  | Some (_, s) => match r s with RPSend PSendClosed => negb (final s) | _ => false end
-  | None => false
-  end = true.
+Example test_ctx_write_race_not_stuck : explore_ok cf_t5w true (fun _ => true) fuel = true.
 Proof. vm_compute. reflexivity. Qed.
 
 (* context done before the call, plus a cancelling mapper *)
@@ -82,12 +78,36 @@ Definition cf_t8 : cfg := mkcfg 1 [0; 1] None (fun _ => [AWrite 1]) None [RPanic
 Example test_reducer_panic : explore_ok cf_t8 false is_panic fuel = true.
 Proof. vm_compute. reflexivity. Qed.
 
+(* mixed: cancel + mapper panic + generator panic, stop-early reducer that writes and then panics, and the context
+   may end at any moment (environment step): no stuck state (live_cfg: no AWaitRet, <= 2 reducer writes) *)
+Definition cf_m1 : cfg :=
+  mkcfg 1 [0; 1] (Some 8) (fun i => match i with 0 => [AWrite 1; ACancel (Some 5)] | _ => [APanic 4] end) (Some 1)
+        [RWrite 7; RPanic 9] false.
+Example test_mixed_1 : explore_ok cf_m1 true (fun _ => true) fuel = true.
+Proof. vm_compute. reflexivity. Qed.
+
+Definition cf_m2 : cfg :=
+  mkcfg 2 [0; 1] None (fun i => match i with 0 => [ACancel None; APanic 3] | _ => [AWrite 1; ACancel (Some 6); AWrite 2] end)
+        None [RWrite 7; RWrite 8] false.
+Example test_mixed_2 : explore_ok cf_m2 true (fun _ => true) fuel = true.
+Proof. vm_compute. reflexivity. Qed.
+
+(* generator panic + mapper panic, no cancel, no ctx, reducer writes nothing: ALWAYS re-raised (this configuration
+   was the witness of c07_panic_reraise_refuted before 1af3580) *)
+Definition cf_m3 : cfg :=
+  mkcfg 2 [0; 1] (Some 8) (fun i => match i with 0 => [AWrite 1; APanic 4] | _ => [AWrite 1] end) (Some 1) [] false.
+Example test_two_panics_reraised : explore_ok cf_m3 false is_panic fuel = true.
+Proof. vm_compute. reflexivity. Qed.
+
 (* summary *)
 Example c07_no_stuck_test_small :
   explore_ok cf_t3 false is_err fuel = true /\ explore_ok cf_t5 true (fun _ => true) fuel = true /\
   explore_ok cf_t6 false (fun _ => true) fuel = true /\ explore_ok cf_t7 false is_panic fuel = true /\
-  explore_ok cf_t7g false is_panic fuel = true /\ explore_ok cf_t8 false is_panic fuel = true.
+  explore_ok cf_t7g false is_panic fuel = true /\ explore_ok cf_t8 false is_panic fuel = true /\
+  explore_ok cf_m1 true (fun _ => true) fuel = true /\ explore_ok cf_m2 true (fun _ => true) fuel = true /\
+  explore_ok cf_m3 false is_panic fuel = true.
 Proof.
   exact (conj test_cancel_waitret (conj test_ctx_any_time (conj test_ctx_pre_cancel
-        (conj test_panics_reraised (conj test_generator_panic_reraised test_reducer_panic))))).
+        (conj test_panics_reraised (conj test_generator_panic_reraised (conj test_reducer_panic
+        (conj test_mixed_1 (conj test_mixed_2 test_two_panics_reraised)))))))).
 Qed.
